@@ -11,6 +11,6 @@ if s.count(old)<1:
 open(f,'w').write(s.replace(old,new,1))
 PY
 [ $? = 3 ] && { rm -rf $T; exit 3; }
-cd /verif && VERIF_REPO=$T VERIF_WORKTAG=.mut$$ timeout ${MUT_TIMEOUT:-900} ./check $ID ${TIER:-quick} 2>&1 | grep -v "^KNOWN-FINDING" | head -${LINES_MAX:-12}
+cd /verif && VERIF_EVIDENCE_DIR=/tmp/evscratch VERIF_REPO=$T VERIF_WORKTAG=.mut$$ timeout ${MUT_TIMEOUT:-900} ./check $ID ${TIER:-quick} 2>&1 | grep -v "^KNOWN-FINDING" | head -${LINES_MAX:-12}
 echo "rc=${PIPESTATUS[0]}"
 rm -rf $T
